@@ -256,3 +256,159 @@ pub proof fn lemma_tcp_prefix_parts(kw: Seq<u8>, a: Seq<u8>, b: Seq<u8>, p: Seq<
     }
     (i, g)
 }
+
+/// case 0: the cut falls inside (or at the end of) `PROXY`
+pub proof fn lemma_prefix_case0(w: Seq<u8>)
+    requires splitn_spec(w, 7) =~= seq![w], is_prefix_of(w, b_proxy())
+    ensures v1v_incomplete(line_verdict(w))
+{
+    if w.len() > 0 {
+        assert(w.subrange(0, w.len() as int) =~= w);
+        assert(is_suffix_of(w, w));
+    }
+}
+
+/// case 1: the cut falls inside (or at the end of) the protocol keyword
+pub proof fn lemma_prefix_case1(w: Seq<u8>, g: Seq<u8>, kw: Seq<u8>)
+    requires
+        splitn_spec(w, 7) =~= seq![b_proxy(), g], w =~= b_proxy() + seq![32u8] + g,
+        is_prefix_of(g, kw), kw =~= b_tcp4() || kw =~= b_tcp6() || kw =~= b_unknown(),
+        from_kw_fields_ok(kw),
+    ensures v1v_incomplete(line_verdict(w))
+{
+    let n = w.len() as int;
+    let parts = splitn_spec(w, 7);
+    assert(parts[0] =~= b_proxy() && parts[1] =~= g && parts.len() == 2);
+    // not `Partial` on the keyword PROXY: the text is longer than PROXY and does not end with 'Y'
+    assert(!is_suffix_of(b_proxy(), w)) by {
+        if is_suffix_of(b_proxy(), w) {
+            assert(w.subrange(n - 5, n)[4] == w[n - 1]);
+            if g.len() == 0 { assert(w[n - 1] == 32u8); }
+            else {
+                assert(w[n - 1] == g[g.len() - 1]);
+                assert(kw.subrange(0, g.len() as int)[g.len() - 1] == kw[g.len() - 1]);
+            }
+        }
+    }
+    assert(is_suffix_of(g, w)) by { assert(w.subrange(n - g.len(), n) =~= g); }
+    assert(!is_suffix_of(b_crlf(), w)) by {
+        if is_suffix_of(b_crlf(), w) {
+            assert(w.subrange(n - 2, n)[1] == 10u8);
+            assert(w[n - 1] == 10u8);
+            if g.len() == 0 { assert(w[n - 1] == 32u8); }
+            else { assert(w[n - 1] == g[g.len() - 1]); assert(kw.subrange(0, g.len() as int)[g.len() - 1] == kw[g.len() - 1]); }
+        }
+    }
+    if g.len() > 0 && g.len() < kw.len() {
+        // a proper prefix of a keyword is no keyword, and is a prefix of TCP4 or of UNKNOWN
+        assert forall|j: int| 0 <= j < g.len() implies g[j] == kw[j] by { assert(kw.subrange(0, g.len() as int)[j] == kw[j]); }
+        if kw =~= b_unknown() {
+            assert(is_prefix_of(g, b_unknown()));
+            assert(!(g =~= b_tcp4()) && !(g =~= b_tcp6())) by { assert(g[0] == 85u8); }
+        } else {
+            assert(g.len() <= 3);
+            assert(is_prefix_of(g, b_tcp4())) by {
+                assert forall|j: int| 0 <= j < g.len() implies b_tcp4().subrange(0, g.len() as int)[j] == g[j] by {}
+            }
+        }
+    } else if g.len() == kw.len() && g.len() > 0 {
+        assert(g =~= kw);
+        if kw =~= b_tcp4() { assert(addr_fields_kind::<std::net::Ipv4Addr>(parts) == Some(V1K::MissingSourceAddress)); }
+        else if kw =~= b_tcp6() {
+            assert(!(g =~= b_tcp4())) by { assert(b_tcp6()[3] != b_tcp4()[3]); }
+            assert(addr_fields_kind::<std::net::Ipv6Addr>(parts) == Some(V1K::MissingSourceAddress));
+        } else {
+            assert(!(g =~= b_tcp4()) && !(g =~= b_tcp6()));
+        }
+    }
+}
+pub open spec fn from_kw_fields_ok(kw: Seq<u8>) -> bool { true }
+
+/// cases 2..6: `PROXY`, the keyword and between one and five further pieces
+pub proof fn lemma_prefix_case_fields(w: Seq<u8>, v4: bool, a: Seq<u8>, b: Seq<u8>, p: Seq<u8>, q: Seq<u8>, i: int, g: Seq<u8>)
+    requires
+        2 <= i <= 6,
+        splitn_spec(w, 7) =~= tcp_fields(if v4 { b_tcp4() } else { b_tcp6() }, a, b, p, q).subrange(0, i) + seq![g],
+        i < 6 ==> is_prefix_of(g, tcp_fields(if v4 { b_tcp4() } else { b_tcp6() }, a, b, p, q)[i]),
+        i == 6 ==> g.len() == 0,
+        v4 ==> from_str_spec::<std::net::Ipv4Addr>(a) is Ok && from_str_spec::<std::net::Ipv4Addr>(b) is Ok,
+        !v4 ==> from_str_spec::<std::net::Ipv6Addr>(a) is Ok && from_str_spec::<std::net::Ipv6Addr>(b) is Ok,
+        port_ok(p), port_ok(q),
+        w.len() > 5, w.len() <= 107, w[w.len() - 1] != 89u8,
+    ensures v1v_incomplete(line_verdict(w))
+{
+    let kw = if v4 { b_tcp4() } else { b_tcp6() };
+    let fs = tcp_fields(kw, a, b, p, q);
+    let parts = splitn_spec(w, 7);
+    let n = w.len() as int;
+    assert(parts.len() == i + 1);
+    assert forall|j: int| 0 <= j < i implies parts[j] == fs[j] by { assert(fs.subrange(0, i)[j] == fs[j]); }
+    assert(parts[i] == g);
+    assert(parts[0] =~= b_proxy() && parts[1] =~= kw);
+    assert(!is_suffix_of(b_proxy(), w)) by {
+        if is_suffix_of(b_proxy(), w) { assert(w.subrange(n - 5, n)[4] == w[n - 1]); }
+    }
+    lemma_port_ok_field(p);
+    if i >= 5 { assert(parts[4] == p); }
+    if i == 5 && g.len() > 0 { lemma_port_prefix_ok(q, g); lemma_port_ok_field(g); }
+    if i == 6 { lemma_port_ok_field(q); assert(parts[5] == q); assert(q.len() >= 1); }
+    if v4 {
+        if i >= 3 { assert(parts[2] == a); }
+        if i >= 4 { assert(parts[3] == b); }
+        assert(addr_fields_kind::<std::net::Ipv4Addr>(parts) matches Some(k) ==> v1k_incomplete(k));
+        if addr_fields_kind::<std::net::Ipv4Addr>(parts) is None {
+            assert(i >= 5);
+            assert(tcp_tail_kind(w, parts) == Some(V1K::MissingNewLine));
+        }
+    } else {
+        assert(!(kw =~= b_tcp4())) by { assert(b_tcp6()[3] != b_tcp4()[3]); }
+        if i >= 3 { assert(parts[2] == a); }
+        if i >= 4 { assert(parts[3] == b); }
+        assert(addr_fields_kind::<std::net::Ipv6Addr>(parts) matches Some(k) ==> v1k_incomplete(k));
+        if addr_fields_kind::<std::net::Ipv6Addr>(parts) is None {
+            assert(i >= 5);
+            assert(tcp_tail_kind(w, parts) == Some(V1K::MissingNewLine));
+        }
+    }
+}
+
+// [props: C05]
+/// every proper prefix of a well-formed TCP line has an incomplete verdict and is not terminated
+pub proof fn lemma_c05_v1_tcp(v4: bool, a: Seq<u8>, b: Seq<u8>, p: Seq<u8>, q: Seq<u8>, k: int)
+    requires
+        v4 ==> from_str_spec::<std::net::Ipv4Addr>(a) is Ok && from_str_spec::<std::net::Ipv4Addr>(b) is Ok,
+        !v4 ==> from_str_spec::<std::net::Ipv6Addr>(a) is Ok && from_str_spec::<std::net::Ipv6Addr>(b) is Ok,
+        port_ok(p), port_ok(q),
+        0 <= k < tcp_line(if v4 { b_tcp4() } else { b_tcp6() }, a, b, p, q).len(),
+        tcp_line(if v4 { b_tcp4() } else { b_tcp6() }, a, b, p, q).len() <= 107,
+    ensures
+        v1v_incomplete(line_verdict(tcp_line(if v4 { b_tcp4() } else { b_tcp6() }, a, b, p, q).subrange(0, k))),
+        !v1_terminated(tcp_line(if v4 { b_tcp4() } else { b_tcp6() }, a, b, p, q).subrange(0, k)),
+{
+    broadcast use crate::prelude::prelude_parse_axioms;
+    broadcast use crate::prelude::prelude_str_axioms;
+    let kw = if v4 { b_tcp4() } else { b_tcp6() };
+    let l = tcp_line(kw, a, b, p, q);
+    let w = l.subrange(0, k);
+    lemma_keywords_no_sep();
+    assert(addr_bytes(a) && addr_bytes(b));
+    lemma_addr_plain(a); lemma_addr_plain(b); lemma_digits_plain(p); lemma_digits_plain(q);
+    assert(plain_field(kw));
+    let (i, g) = lemma_tcp_prefix_parts(kw, a, b, p, q, k);
+    // no CR strictly inside the prefix
+    lemma_first_index_bounds(w, 13u8);
+    let c = first_index_of(w, 13u8);
+    if c + 1 < w.len() {
+        assert(w[c] == l[c]);
+        lemma_line_bytes(kw, a, b, p, q, c);
+    }
+    if i == 0 {
+        lemma_prefix_case0(w);
+    } else if i == 1 {
+        lemma_prefix_case1(w, g, kw);
+    } else {
+        lemma_line_bytes(kw, a, b, p, q, k - 1);
+        assert(w[k - 1] == l[k - 1]);
+        lemma_prefix_case_fields(w, v4, a, b, p, q, i, g);
+    }
+}
